@@ -15,14 +15,20 @@
 #include <fcppt/parse/basic_char_set.hpp>
 #include <fcppt/parse/basic_literal.hpp>
 #include <fcppt/parse/basic_string.hpp>
+#include <fcppt/parse/blank_set.hpp>
 #include <fcppt/parse/construct.hpp>
 #include <fcppt/parse/convert_const.hpp>
+#include <fcppt/parse/digits.hpp>
 #include <fcppt/parse/epsilon.hpp>
 #include <fcppt/parse/error.hpp>
 #include <fcppt/parse/fail.hpp>
 #include <fcppt/parse/float.hpp>
 #include <fcppt/parse/int.hpp>
 #include <fcppt/parse/list.hpp>
+#include <fcppt/parse/make_base.hpp>
+#include <fcppt/make_cref.hpp>
+#include <fcppt/reference_impl.hpp>
+#include <fcppt/parse/base_impl.hpp>
 #include <fcppt/parse/make_fatal.hpp>
 #include <fcppt/parse/make_ignore.hpp>
 #include <fcppt/parse/make_lexeme.hpp>
@@ -32,6 +38,7 @@
 #include <fcppt/parse/result.hpp>
 #include <fcppt/parse/result_of.hpp>
 #include <fcppt/parse/separator.hpp>
+#include <fcppt/parse/space_set.hpp>
 #include <fcppt/parse/uint.hpp>
 #include <fcppt/parse/operators/alternative.hpp>
 #include <fcppt/parse/operators/complement.hpp>
@@ -434,6 +441,22 @@ std::string go(std::function<std::string(std::basic_string<Ch> &&, tcounts &)> c
   }
   return "D " + vh::hex64(h) + " n=" + std::to_string(cnt.n) + " ok=" + std::to_string(cnt.ok) +
          " fail=" + std::to_string(cnt.fail) + " fatal=" + std::to_string(cnt.fatal);
+}
+
+// the skipper type of the world a character type belongs to (box.X = make_base<Ch, Sk>(X) needs it)
+template <typename Ch>
+using world_skipper = std::conditional_t<std::is_same_v<Ch, char>, fsk::epsilon, fsk::basic_literal<wchar_t>>;
+
+template <typename Ch, typename P>
+auto box(P &&_p)
+{
+  return fp::make_base<Ch, world_skipper<Ch>>(std::forward<P>(_p));
+}
+
+template <typename Ch>
+auto cstr(char const *const _s)
+{
+  return decode<Ch>(_s);
 }
 
 // One chunk of the shape list in one world: sets _result and returns true if _grammar is one of its shapes.
